@@ -56,6 +56,10 @@ def cases(tier, rng):
         for sh in ["", "8", "9", "0", "x", "#", "b", "3x", "x3", "#x3", " 3"]:
             for up in (True, False):
                 yield Case("intervals.from_shorthand", [a, sh, up], "from_shorthand/odd")
+    # lists whose first and last note are the same (not palindromes), a palindrome, and long lists
+    for l in (["C", "E", "G", "C"], ["A", "B", "C#", "D", "A"], ["C", "C"], ["C", "E", "C"], ["F#", "A", "F#", "B", "F#"], ["G", "B", "B", "G"],
+              ["C", "D", "E", "F", "G", "A", "B"] * 6, ["Bb"] * 9 + ["C"]):
+        yield Case("intervals.invert", [list(l)], "invert/equal-ends")
     pool = list(names(1))
     for k in range(0, 7):
         for _ in range(5):
